@@ -150,7 +150,7 @@ def run_level_L(S, seed, cases, level):
         if level == "L2":
             S.count("L2_" + case["container"])
         S.case(key=digest([E.codes(cs), E.map_json(smap)]), nontrivial=nontrivial(cs, smap, exp))
-        if ci == 0 and case["labels"][0] == "s0":
+        if ci == 0 and case["labels"][0] == "s0" and case["labels"][-1] == 0:
             S.sample({"level": where, "samples": cs.samples, "map": E.map_json(smap), "first_records": E.codes(cs)[:6],
                       "expected_shape": exp.shape, "expected_cells": [int(x) for x in exp.cells][:30], "observed": res.get("scs", {}).get("data", [])[:6]})
 
@@ -199,7 +199,7 @@ def run_level_C(S, seed, cases):
                 S.viol("C01:unselected-influence:%s" % where, "[%s %s] junk in unselected columns changed the output: rc %s %r / %r" % (
                     where, case["labels"], t.rc, t.out[:200], t.err[:300]), dict(wit, twin_vcf=case["twin"].to_vcf().decode()[:20000], replay=R.same(t, r)))
         S.case(key=digest([E.codes(cs), E.map_json(smap)]), nontrivial=nontrivial(cs, smap, exp))
-        if ci == 0 and case["labels"][0] == "s1":
+        if ci == 0 and case["labels"][0] == "s1" and case["labels"][-1] == 0:
             S.sample({"level": where, "argv": r.argv, "stdout": r.out[:300].decode("utf-8", "replace"), "expected_shape": exp.shape,
                       "expected_cells": [int(x) for x in exp.cells][:40]})
 
@@ -227,9 +227,14 @@ def shard(S, p):
         else:
             run_level_L(S, seed, [case], w["level"])
         return
-    run_level_L(S, seed, [gen(seed, [p["name"], "L1", i], "L1") for i in range(p["l1"])], "L1")
-    run_level_L(S, seed, [gen(seed, [p["name"], "L2", i], "L2") for i in range(p["l2"])], "L2")
-    run_level_C(S, seed, [gen(seed, [p["name"], "C", i], "C") for i in range(p["c"])])
+    # in batches: a shard never holds more than a few hundred call sets in memory
+    B = 400
+    for lo in range(0, p["l1"], B):
+        run_level_L(S, seed, [gen(seed, [p["name"], "L1", i], "L1") for i in range(lo, min(p["l1"], lo + B))], "L1")
+    for lo in range(0, p["l2"], B):
+        run_level_L(S, seed, [gen(seed, [p["name"], "L2", i], "L2") for i in range(lo, min(p["l2"], lo + B))], "L2")
+    for lo in range(0, p["c"], B):
+        run_level_C(S, seed, [gen(seed, [p["name"], "C", i], "C") for i in range(lo, min(p["c"], lo + B))])
     idx = int(p["name"][1:])
     if idx < len(BOUNDARY_RECORDS):
         run_level_C(S, seed, [gen_boundary(seed, [p["name"], "boundary", idx])])
